@@ -12,6 +12,7 @@
 import PgVerif.Model.Heap
 import PgVerif.Model.Pglz
 import PgVerif.Model.Lz4
+import PgVerif.Model.InlineComp
 import PgVerif.Model.KeySort
 namespace PgVerif.Model.Toast
 open PgVerif PgVerif.Model
@@ -58,7 +59,7 @@ def isTOASTPointer (data : Bytes) : M Bool := do
   return first == 0x01 || first == 0x02 || first == 0x12
 
 /-- types.go:ReadVarlena (tree at /repo HEAD, i.e. with fixes/rows/02 — an on-disk external pointer occupies 18 bytes —
-and /05 — an empty short varlena `03` is the empty value, not nil).  `none` = nil. -/
+/05 — an empty short varlena `03` is the empty value, not nil — and /09 — a value compressed in line is decompressed).  `none` = nil. -/
 def readVarlena (data : Bytes) : M (Option Bytes × Nat) := do
   if data.length = 0 then return (none, 0)
   let first ← idx data 0
@@ -77,6 +78,10 @@ def readVarlena (data : Bytes) : M (Option Bytes × Nat) := do
   let header ← uN 4 data 0
   let totalLen := header >>> 2
   if totalLen < 4 || data.length < totalLen then return (none, 4)
+  if header % 4 == 2 && totalLen ≥ 8 then
+    -- fixes/rows/09: compressed in line (never the case for chunk_data PostgreSQL wrote)
+    let v ← inlineDecompress data totalLen
+    return (v, totalLen)
   let d ← slice data 4 totalLen
   return (some d, totalLen)
 
